@@ -1,5 +1,9 @@
 """Reader for parsing a DiffX file into DOM objects."""
 
+import inspect
+
+from pydiffx.dom.properties import OptionProperty
+from pydiffx.errors import DiffXUnknownOptionError
 from pydiffx.reader import DiffXReader
 from pydiffx.sections import Section
 
@@ -182,7 +186,10 @@ class DiffXDOMReader(object):
             pydiffx.dom.objects.DiffXChangeSection:
             The new change section.
         """
-        return diffx.add_change(**section_info['options'])
+        section = diffx.add_change()
+        self._set_container_options(section, section_info['options'])
+
+        return section
 
     def _read_file_section(self, diffx, section, section_info):
         """Read a file section.
@@ -203,7 +210,40 @@ class DiffXDOMReader(object):
             pydiffx.dom.objects.DiffXFileSection:
             The new file section.
         """
-        return diffx.changes[-1].add_file(**section_info['options'])
+        section = diffx.changes[-1].add_file()
+        self._set_container_options(section, section_info['options'])
+
+        return section
+
+    def _set_container_options(self, section, options):
+        """Set options read from a header on a container section.
+
+        Only the section's own options can be set this way. A header can't
+        be used to set content or any other attribute of the object.
+
+        Args:
+            section (pydiffx.dom.objects.BaseDiffXContainerSection):
+                The container section to set options on.
+
+            options (dict):
+                The options from the section's header.
+
+        Raises:
+            pydiffx.errors.DiffXUnknownOptionError:
+                An option is not known for this type of section.
+
+            pydiffx.errors.DiffXOptionValueError:
+                The value of an option is not valid.
+        """
+        for name, value in options.items():
+            prop = inspect.getattr_static(type(section), name, None)
+
+            if not isinstance(prop, OptionProperty):
+                raise DiffXUnknownOptionError(
+                    '"%s" is not a valid option or content section'
+                    % name)
+
+            setattr(section, name, value)
 
     def _set_content_options(self, section, options):
         options.pop('length', None)
